@@ -248,6 +248,15 @@ def configs(tier, seed):
     return items
 
 
+DEGENERATE = [
+    [('tuple', ['i']), ('unit', []), ('tuple', ['p'])],
+    [('unit', []), ('tuple', ['i', 'i']), ('named', ['p'])],
+    [('named', ['i']), ('tuple', ['p']), ('unit', [])],
+    [('tuple', []), ('unit', []), ('named', [])],
+    [('named', []), ('tuple', []), ('tuple', ['p'])],
+]
+
+
 def gen(tier, seed):
     mods = []
     n = 0
@@ -262,6 +271,16 @@ def gen(tier, seed):
             continue
         mods.append(m)
         n += 1
+    # variants without any compared field (all ignored, `V()`, `V {}`) before / between other variants, in every trait set:
+    # the per-variant bookkeeping (implicit discriminant, arms) must not depend on a variant having compared fields
+    for k, vs in enumerate(DEGENERATE):
+        for mode in MODES:
+            shape = ('enum', vs)
+            ranks = [None if not fl else [None] * len(fl) for _, fl in vs]
+            m = emit(f'm{n:04d}', f'{S.shape_id(shape)}/ranks=default/{mode}/no-compared-field variants', shape, ranks, mode)
+            if m is not None:
+                mods.append(m)
+                n += 1
     from . import model
     model.TYPE_WRAP = model.generic_header_wrap
     try:
